@@ -881,6 +881,8 @@ def rule_transform(ctx: Ctx, rule: str = "transform") -> None:
         n += 1
         stores = [e for e in p.events if e["kind"] == "store" and e["target"][0] == "sub"]
         construct = "_transform: per-term rewrite"
+        if not any(e["kind"] == "loop-iter" for e in p.events):
+            continue  # returned before looking at any term (nothing to rewrite): not a rewrite path
         if len(stores) != 1:
             ctx.cannot_decide(rule, key, construct, "expected one store of the rewritten term per iteration (path %s)" % p.label())
             continue
@@ -1383,6 +1385,38 @@ def rule_kaykobad_guards(ctx: Ctx, rule: str = "kaykobad-guards") -> None:
         ctx.violation(rule, key, construct, "the sign comparison is made only for the pivot variable, not for every eliminated variable of the term", where=fi.where)
     else:
         ctx.violation(rule, key, construct, "no sign comparison between the row's and the term's coefficients", where=fi.where)
+    # (4) the dominance bookkeeping: an accepted row adds its residual to the running sum of EVERY column
+    construct = "_get_kaykobad_context: an accepted row's residuals are accumulated for every column (full range)"
+    acc = []
+    for node in ast.walk(fi.node):
+        if isinstance(node, ast.For):
+            for st in node.body:
+                if isinstance(st, ast.AugAssign) and isinstance(st.op, ast.Add) and isinstance(st.target, ast.Subscript) and isinstance(st.value, ast.Subscript):
+                    if norm(st.target.slice) == norm(st.value.slice) and isinstance(node.target, ast.Name) and norm(st.target.slice) == node.target.id:
+                        acc.append((node, st))
+    n_src = None
+    for node in ast.walk(fi.node):
+        if isinstance(node, ast.Assign) and isinstance(node.targets[0], ast.Name) and isinstance(node.value, ast.Call) and norm(node.value.func) == "len":
+            src = fl.sources(node.value.args[0])
+            if elim_p in src and ("%s.vars" % term_p) in src:
+                n_src = node.targets[0].id
+    if not acc:
+        # a comprehension / zip rewrite covers all columns by construction
+        zipped = any(isinstance(n_, (ast.ListComp, ast.GeneratorExp)) and "zip(" in norm(n_) and "residuals" in norm(n_) for n_ in ast.walk(fi.node))
+        (ctx.ok(rule, key, construct, nontrivial=False) if zipped else ctx.cannot_decide(rule, key, construct, "accumulation of residuals not found"))
+    else:
+        for loop, st in acc:
+            it = loop.iter
+            full = False
+            if isinstance(it, ast.Call) and norm(it.func) == "range" and len(it.args) == 1:
+                a0 = it.args[0]
+                full = (isinstance(a0, ast.Name) and a0.id == n_src) or (isinstance(a0, ast.Call) and norm(a0.func) == "len")
+            if isinstance(it, ast.Call) and norm(it.func) == "enumerate":
+                full = True
+            if full:
+                ctx.ok(rule, key, construct)
+            else:
+                ctx.violation(rule, key, construct, "`for %s in %s: %s` covers only part of the columns: contributions to the others are lost and the dominance test accepts rows it must reject" % (norm(loop.target), norm(it), norm(st)), where="%s:%d" % (fi.module.relpath, loop.lineno))
     # polarity of the sign condition:  transform_coeff = +1 iff refine
     construct = "_get_kaykobad_context: the sign condition uses +1 when refining and -1 when relaxing"
     for rv, want in ((True, 1), (False, -1)):
@@ -1483,3 +1517,91 @@ def rule_rename_variables_chain(ctx: Ctx, rule: str = "rename-sequence") -> None
                 why = "the result is %s, not the last renaming" % show(v, 3)
         (ctx.ok(rule, key, construct) if okc else ctx.violation(rule, key, construct, why, where=fi.where))
     ctx.floor("rename_variables paths", n, 3)
+
+
+# ------------------------------------------------ matrix provenance (C03 / C07)
+_ROW_PRESERVING = ("copy", "array", "asarray", "atleast_2d", "concatenate", "vstack", "delete", "astype", "zeros")
+
+
+def rule_matrix_provenance(ctx: Ctx, key: str, rule: str = "matrix-provenance") -> None:
+    """C03/C07: the rows handed to the LP are the operand's rows, untouched: the only row removal is np.delete of the
+    tested row; no other selection / de-duplication / re-ordering of the parameter matrices (a looser duplicate kept
+    instead of a tighter one changes the polyhedron)."""
+    prog = ctx.prog
+    fi = prog.func(key)
+    short = key.split(".")[-1]
+    mats = ["a_l", "b_l", "a_r", "b_r"] if short.startswith("verify") else ["a", "b", "a_help", "b_help"]
+    ps = [p for p in lp_paths(prog, key, 0) if p.terminal == "return"]
+    if not ps:
+        ctx.cannot_decide(rule, key, "lp paths", "no returning path through the LP")
+        return
+    seen = set()
+    n = 0
+    for p in ps:
+        for lp in p.calls("linprog"):
+            for kwn in ("A_ub", "b_ub", "c"):
+                v = kw_of(lp, kwn)
+                if v is None:
+                    continue
+                sig = show(v, 8)
+                if (kwn, sig) in seen:
+                    continue
+                seen.add((kwn, sig))
+                n += 1
+                bad = _foreign_matrix_ops(v, mats, allow_row_pick=True)
+                construct = "%s: %s is built from the operand matrices without re-selecting rows" % (short, kwn)
+                if bad:
+                    ctx.violation(rule, key, construct, "%s passes through %s before the LP: rows are selected / merged / re-ordered outside the LP-justified np.delete" % (kwn, bad), where=fi.where)
+                else:
+                    ctx.ok(rule, key, construct + " @ " + sig[:50], nontrivial=False)
+    ctx.floor("%s LP argument shapes" % short, n, 2)
+
+
+def _computed_index(idx) -> bool:
+    """True if the index is computed by a call (np.sort(first), a mask, ...) rather than being the loop position."""
+    st = [idx]
+    while st:
+        x = st.pop()
+        if not isinstance(x, tuple) or not x:
+            continue
+        if x[0] == "iter":
+            continue  # the position of the loop: do not look inside (range(n), enumerate(...))
+        if x[0] in ("call", "mcall"):
+            return True
+        for y in x:
+            if isinstance(y, tuple):
+                st.append(y)
+    return False
+
+
+def _foreign_matrix_ops(v, mats: List[str], allow_row_pick: bool) -> Optional[str]:
+    """Name of the first operation applied to (something derived from) a parameter matrix that is not row preserving."""
+    def derived(x) -> bool:
+        return mentions(x, lambda y: isinstance(y, tuple) and len(y) == 2 and y[0] == "param" and y[1] in mats)
+
+    def walk_no_iter(root):
+        st = [root]
+        while st:
+            y = st.pop()
+            yield y
+            if isinstance(y, tuple) and y and y[0] != "iter":
+                for z in y:
+                    if isinstance(z, tuple):
+                        st.append(z)
+
+    for x in walk_no_iter(v):
+        if not isinstance(x, tuple) or not x:
+            continue
+        if x[0] == "call" and any(derived(a) for a in list(x[2]) + [b for _k, b in x[3]]):
+            nm = str(x[1]).split(".")[-1]
+            if nm not in _ROW_PRESERVING and nm not in ("len", "float", "int", "isinstance", "shape", "range", "enumerate", "zip"):
+                return "%s(...)" % x[1]
+        if x[0] == "mcall" and derived(x[2]) and x[1] not in ("copy", "astype", "reshape", "tolist"):
+            return ".%s(...)" % x[1]
+        if x[0] == "sub" and derived(x[1]):
+            idx = x[2]
+            # a single row / entry addressed by the loop index is the tested row; anything computed (np.sort(first),
+            # masks, np.unique indices) is a re-selection
+            if _computed_index(idx):
+                return "indexing with %s" % show(idx, 3)
+    return None
